@@ -167,6 +167,7 @@ def real_constraints(ctx, I):
                      "(>= 65 + max(bound, index limit %d, SIZE_LIMIT)) after a %s token announcing %d bytes" % (name, B, hw, idxmax, hex(ty), size),
                      replay=dict(constraint=name, ty=ty, size=size, sent=sent, step=step, highwater=hw, bound=bound))
     ctx.sample(dict(kind="real-constraint", constraint=name, token=hex(ty), announced=size, highwater=hw, bound=bound))
+    full_containers(ctx, I)
     pb_index_tokens(ctx)
     if ctx.build_ok or ctx.coq_build(["lib/OpenerProofs.vo"])[0]:
         opener_correspondence(ctx)
@@ -198,6 +199,62 @@ def real_constraints(ctx, I):
         if (total >= 4100) != lost or hwn > 4100 + 1000:
             ctx.fail("oracle/negotiation-cap", "negotiation buffer: fed %d bytes without a blank line: connection dropped=%s, high-water %d"
                      % (total, lost, hwn), replay=dict(total=total))
+
+
+def full_containers(ctx, I):
+    """a container that already holds as many items as its constraint admits must refuse one more item when the item's HEADER arrives,
+    even if the item alone would satisfy the item constraint: nothing of its body may be buffered"""
+    from foolscap.constraint import IConstraint, ByteStringConstraint
+    from foolscap.schema import ListOf, TupleOf, DictOf, SetOf
+    r = ctx.rng
+    L = 1000
+    leaf = lambda: ByteStringConstraint(maxLength=L)
+    for kind in ("list", "set", "dict-key", "dict-value-after-full", "tuple"):
+        for k in (0, 1, 3):
+            for ty, size in ((STRING, L), (STRING, 500), (STRING, 66), (LONGINT, 200)):
+                if kind == "list":
+                    c, name = ListOf(leaf(), maxLength=k), "ListOf(bytes<=%d, maxLength=%d)" % (L, k)
+                    pre = tok(OPEN, 0) + S(b"list") + b"".join(S(b"item%d" % i) for i in range(k))
+                elif kind == "set":
+                    c, name = SetOf(leaf(), maxLength=k), "SetOf(bytes<=%d, maxLength=%d)" % (L, k)
+                    pre = tok(OPEN, 0) + S(b"set") + b"".join(S(b"item%d" % i) for i in range(k))
+                elif kind == "dict-key":
+                    c, name = DictOf(leaf(), leaf(), maxKeys=k), "DictOf(bytes, bytes, maxKeys=%d)" % k
+                    pre = tok(OPEN, 0) + S(b"dict") + b"".join(S(b"key%d" % i) + S(b"val%d" % i) for i in range(k))
+                elif kind == "dict-value-after-full":
+                    if k == 0:
+                        continue
+                    c, name = DictOf(leaf(), leaf(), maxKeys=k - 1), "DictOf(bytes, bytes, maxKeys=%d)" % (k - 1)
+                    pre = tok(OPEN, 0) + S(b"dict") + b"".join(S(b"key%d" % i) + S(b"val%d" % i) for i in range(k - 1))
+                else:
+                    c, name = TupleOf(*[leaf() for _ in range(k)]), "TupleOf(%d x bytes<=%d)" % (k, L)
+                    pre = tok(OPEN, 0) + S(b"tuple") + b"".join(S(b"item%d" % i) for i in range(k))
+                if ty == LONGINT and kind != "list":
+                    continue
+                p = I.RealBanana()
+                p.receiveStack[-1].constraint = IConstraint(c)
+                hw, esc = 0, None
+                step = r.choice([50, 64, 200])
+                try:
+                    p.dataReceived(pre)
+                    p.dataReceived(tok(ty, size))
+                    hw = len(p.buffer)
+                    left = size
+                    while left > 0 and not p.connectionAbandoned:
+                        n_ = min(step, left)
+                        p.dataReceived(b"y" * n_)
+                        left -= n_
+                        hw = max(hw, len(p.buffer))
+                except Exception as e:
+                    esc = "%s: %s" % (type(e).__name__, e)
+                ctx.case(["full-container", kind, k, ty, size, step], nontrivial=True)
+                ctx.hist("full_container", kind)
+                if esc:
+                    ctx.fail("oracle/exception-escaped", "exception escaped dataReceived under %s: %s" % (name, esc), replay=dict(constraint=name))
+                elif hw > 65:
+                    ctx.fail("oracle/full-container-buffers-extra-item", "%s already held all the items it admits (%d sent), yet %d bytes of one more "
+                             "item (a %s token announcing %d bytes, acceptable to the item constraint alone) were buffered instead of being refused "
+                             "at the header" % (name, k, hw, hex(ty), size), replay=dict(constraint=name, kind=kind, k=k, ty=ty, size=size, step=step, highwater=hw))
 
 
 def pb_index_tokens(ctx):
